@@ -22,6 +22,7 @@ import lib
 from lib import Prop, rat
 import gen_pil
 import gen_cli
+import pipeline
 
 VERIF = lib.VERIF
 
@@ -37,7 +38,7 @@ def canon_rows(res):
             [r.proteinIds, r.majorityProteinIds, r.peptideCountsUnique, r.bestPeptide, int(r.numberOfProteins),
              rat(float(r.qValue)), rat(float(r.score)), r.reverse, r.potentialContaminant]
         )
-    return rows
+    return rows  # same field order as pipeline.ROW_FIELDS
 
 
 def call_once(method, cfg, pil, case):
@@ -89,21 +90,48 @@ class P(Prop):
         ms = method_names()
         m = rng.choice(ms)
         n = rng.randint(2, 5)
-        base = [gen_pil.gen_pil(rng, tier) for _ in range(rng.randint(1, n))]
+        base = [gen_pil.gen_pil(rng, tier) if rng.random() < 0.7 else gen_pil.gen_rescue_pil(rng, tier)[0] for _ in range(rng.randint(1, n))]
         inputs = [rng.choice(base) for _ in range(n)]
-        return {"method": m, "inputs": inputs, "thr": rng.choice([0.01, 0.05, 0.2, 1.0]), "psm": 0.01,
+        return {"method": m, "inputs": inputs, "thr": rng.choice(pipeline.THRESHOLDS), "psm": 0.01,
                 "keep": rng.random() < 0.3}
 
+    def _sub(self, case, pil):
+        return {"kind": "pipeline", "method": case["method"], "pseudo": False, "pil": [[p, rat(x), pr] for p, x, pr in pil],
+                "thr": rat(case["thr"]), "psm": rat(case["psm"]), "keepAll": bool(case["keep"])}
+
     def run_impl(self, case):
+        """the call sequence on ONE reused MethodConfig (every call observed with the pipeline recorders, so that
+        each can be compared with the Lean model of a call on a fresh object), then every call on a fresh object"""
         from picked_group_fdr import methods
 
         cfg = methods.parse_method_toml(case["method"], use_pseudo_genes=False)
-        seq = [call_once(case["method"], cfg, pil, case) for pil in case["inputs"]]
-        fresh = [call_once(case["method"], None, pil, case) for pil in case["inputs"]]
-        return {"seq": seq, "fresh": fresh}
+        seq_full = [pipeline.run_impl(self._sub(case, pil), cfg=cfg) for pil in case["inputs"]]
+        fresh_full = [pipeline.run_impl(self._sub(case, pil)) for pil in case["inputs"]]
+
+        def brief(o):
+            return {"err": o["err"]} if "err" in o else {"rows": [[r[f] for f in pipeline.ROW_FIELDS] for r in o["rows"]]}
+
+        return {"seq": [brief(o) for o in seq_full], "fresh": [brief(o) for o in fresh_full], "_rec": {"seq_full": seq_full}}
 
     def model_request(self, case, impl_out):
-        return None  # the pipeline model is compared in C01/C06/C18-style checks; see extra()
+        # one model call per real call: the model is a call on a FRESH configuration (PgFdr.Pipeline.run)
+        return [pipeline.model_request(self._sub(case, pil), o) for pil, o in zip(case["inputs"], impl_out["_rec"]["seq_full"])]
+
+    def model_view(self, case, resps, impl_out):
+        out = []
+        for pil, resp, o in zip(case["inputs"], resps, impl_out["_rec"]["seq_full"]):
+            sub = self._sub(case, pil)
+            if "proto_err" in resp:
+                out.append(resp)
+            elif pipeline.near_tie(resp, sub):
+                out.append(pipeline.impl_view(sub, o))
+            else:
+                fi = pipeline.float_identities(sub, resp, o)
+                out.append({"float_identity_broken": fi} if fi else pipeline.model_view(sub, resp, o))
+        return out
+
+    def impl_view(self, case, impl_out):
+        return [pipeline.impl_view(self._sub(case, pil), o) for pil, o in zip(case["inputs"], impl_out["_rec"]["seq_full"])]
 
     def oracle(self, case, impl_out):
         for i, (a, b) in enumerate(zip(impl_out["seq"], impl_out["fresh"])):
